@@ -53,6 +53,16 @@ CHECKS = {
         "All histories to depth 5 (quick) / 7 (thorough) over ~22 events x version unknown + five versions x metric/imperial; per transition the multiset of writes must equal the reaction table (id/config/time/req/discover/reboot/version query); plus a grid over 4 time zones x 2 instants.",
         "time.localtime/time.time frozen; presentation requests filtered by form (C10).",
         "5/C06"),
+    "C08": ("E2", "fault_enumeration",
+        "exhaustive enumeration of the tree of ok/fail answers to every transport write attempt across sequences of wakes, on the real gateway",
+        "Every non-empty subset (<= 4) of 5 parked commands over two nodes x every sequence of 1-3 wakes x every assignment of ok/fail to every write attempt, followed by a fault-free wake of each node: failure reported, each command exactly one successful write, never re-written, never by the other node's wake.",
+        "Fault = Transport.write raises TransportFailedError. Sequential (no concurrent send).",
+        "5/C08"),
+    "C09": ("E2", "exploration",
+        "stateless exhaustive schedule exploration (deviation-bounded, re-execution from scratch) of the real Gateway on a hand-driven asyncio loop",
+        "One listener flushing the woken node's buffer + 1-3 application tasks calling send, every transport write a suspension point the explorer completes in every order: quick all schedules with <= 2 early firings, thorough every schedule; oracle at quiescence after one more wake: last sent = last written per key, nothing phantom, nothing duplicated.",
+        "Virtual loop keeps asyncio's FIFO ready order; write order = invocation order; 9-11 scenario shapes x 2-3 versions.",
+        "5/C09"),
     "C10": ("E1", "model_checking",
         "explicit-state model checking of the implementation (BFS to a fixed point) against an 'outstanding request' model, with write-fault events",
         "Closed state space for 2 (quick) / 3 (thorough) nodes x every message kind that can hit a missing node/child x optional write fault, all five versions; every transition checked: exactly one request per episode under 2.x, none under 1.x, failed request not counted.",
